@@ -365,6 +365,10 @@ def _wrapped(v, inner):
                      ("const", ")"))
     if v[0] == "strformat" and v[1] == "({})":
         return v[2] == (inner,)
+    if v[0] == "call" and v[1] == "self.parenthesize" and len(v) > 2:
+        # the printer's own helper; that it wraps on every path is a rule
+        # instance of its own (T/printer/parenthesize-always-wraps)
+        return tuple(v[2]) == (inner,)
     return False
 
 
@@ -436,6 +440,15 @@ def _check_paren_if(model, mapper, table):
     table.paren_op = op
     mem, pss = _paths(model, mapper, "parenthesize")
     sp = ("param", mem.node.args.args[1].arg)
+    if any(ps.term == "return" and ps.retval == sp for ps in pss):
+        raise ModelViolation(
+            "T/printer/parenthesize-always-wraps",
+            f"{mapper.module.relpath}:{mem.node.lineno}",
+            f"{mapper.name}.parenthesize returns its argument as it is on some "
+            "path (depending on the text): the handlers call it where "
+            "parentheses are *needed*, and a text that merely starts with '(' "
+            "and ends with ')' -- '(a + b)*(c + d)', '(-1)*(y + z)' -- is not "
+            "enclosed by them, so x/((-1)*(y + z)) prints as x/(-1)*(y + z)")
     if not all(ps.term == "return" and _wrapped(ps.retval, sp) for ps in pss):
         raise AnalysisError("parenthesize() does not wrap in parentheses")
 
@@ -836,7 +849,13 @@ class ModelPrinter:
     def get(self, tree, fld):
         if fld == "@self":
             return tree
-        names = self.fields(tree[0])
+        names = list(self.fields(tree[0]))
+        if fld not in names:
+            # legacy nodes spell their init args Numerator / Denominator and
+            # offer the lower-case names as properties
+            low = [n.lower() for n in names]
+            if fld.lower() in low:
+                return tree[1 + low.index(fld.lower())]
         return tree[1 + names.index(fld)]
 
     def needs_paren(self, enclosing, my):
